@@ -11,7 +11,9 @@
 (*      P unchanged and gives the others at most an ancilla-X factor:      *)
 (*      the post-measurement state is the projected state, nothing else;   *)
 (*  (c) no residual (non-Clifford) rotation is applied;                    *)
-(*  (d) the returned bit is outcome XOR [leading minus] (checked by rig).  *)
+(*  (d) the returned bit is outcome XOR [leading minus] (checked by rig);  *)
+(*  (e) the only physical qubit the backend is asked to reset afterwards   *)
+(*      (`cleared`) is the measured ancilla.                               *)
 (***************************************************************************)
 EXTENDS Gates, TLC, Json, IOUtils
 Cases == ndJsonDeserialize(IOEnv.VERIF_TRACES)
@@ -41,5 +43,6 @@ Verdict == stage # "out" \/
   IF Pre.L # << >> \/ Tot.L # << >> THEN PrintT(<<"VERDICT", "C20", "non-clifford-rotation-in-parity-measurement", id>>)
   ELSE IF Measured # Expected THEN PrintT(<<"VERDICT", "C20", IF Abs(Measured) = Abs(Expected) THEN "measured-observable-has-wrong-sign" ELSE "measures-a-different-observable", id>>)
   ELSE IF ~PostOK THEN PrintT(<<"VERDICT", "C20", "post-measurement-state-disturbed", id>>)
+  ELSE IF \E i \in DOMAIN C.cleared : C.cleared[i] # C.meas_qubit THEN PrintT(<<"VERDICT", "C20", "resets-a-qubit-that-was-not-measured", id>>)
   ELSE PrintT(<<"OK", id>>)
 =============================================================================
